@@ -297,6 +297,10 @@ func (p *Azure) authorizeToken(token string) (*azurePayload, string, string, str
 		return nil, "", "", "", "", errs.Wrap(http.StatusUnauthorized, err, "azure.authorizeToken; failed to validate azure token payload")
 	}
 
+	if claims.Subject == "" {
+		return nil, "", "", "", "", errs.Unauthorized("azure.authorizeToken; azure token subject cannot be empty")
+	}
+
 	// Validate TenantID
 	if claims.TenantID != p.TenantID {
 		return nil, "", "", "", "", errs.Unauthorized("azure.authorizeToken; azure token validation failed - invalid tenant id claim (tid)")
